@@ -85,6 +85,28 @@ theorem C23_rotate_only_at_size (cfg : Cfg) (h : List Op) (hp : proto .stopped h
     cfg.fileSize = 0 ∨ cfg.fileSize ≤ bytes cfg (content ((filesAt cfg h n).slots 0)) :=
   rotation_points cfg h hp n _ hr rfl he
 
+/-- **each record at most once**: the records written up to any crash point carry the numbers
+`0, 1, 2, …` in order, so the suffix of `C23_rotation_contiguous` is a run of consecutive, distinct
+record numbers. -/
+theorem C23_records_numbered (cfg : Cfg) (h : List Op) (n : Nat) :
+    (acctAt cfg h n).written.map (·.n) = List.range (acctAt cfg h n).written.length := by
+  have hnum : Numbered ((St.init cfg).exec h) := exec_numbered _ h rfl
+  obtain ⟨rest, hr⟩ := recW_take_prefix ((St.init cfg).exec h).trace n
+  unfold Numbered at hnum
+  rw [hr, List.map_append] at hnum
+  have hw : (acctAt cfg h n).written = recW (((St.init cfg).exec h).trace.take n) := written_acctOf _
+  rw [hw]
+  -- a prefix of `range m` is `range` of its length
+  have key : ∀ (l r : List Nat) (m : Nat), l ++ r = List.range m → l = List.range l.length := by
+    intro l r m hlr
+    have h1 : l = (List.range m).take l.length := by rw [← hlr]; simp
+    have hlen : l.length ≤ m := by
+      have := congrArg List.length hlr; simp at this; omega
+    rw [List.take_range, Nat.min_eq_left hlen] at h1
+    exact h1
+  have := key _ _ _ hnum
+  simpa using this
+
 /-! non-vacuity: keep 2, rotate every second whatever the size, flush every second -/
 
 def exCfg : Cfg := Cfg.ofArgs 2 8 0 8 true 20
